@@ -322,6 +322,23 @@ def run_case(ctx, spec, nspec, style, seed, only=None):
             if other[0] != 'nofn':
                 cmp(ctx, 'bool_fix', base, other, dict(case, t='bool_fix'),
                     'document %r' % text[:200])
+    # 6 equal sub-nodes written once, with an anchor, and referenced by
+    # aliases afterwards
+    if only in (None, 'aliases'):
+        import random as _random
+        asp, n_al = D.share_equal_subnodes(nspec, _random.Random(seed), 0.9)
+        if n_al:
+            try:
+                t6 = D.render(asp, style if style in ('block', 'flow')
+                              else 'block')
+            except (ValueError, RecursionError):
+                t6 = None
+            if t6 is not None:
+                _, other, _ = load_outcome(spec, t6)
+                if other[0] != 'nofn':
+                    ctx.count('alias_spellings_compared')
+                    cmp(ctx, 'aliases', base, other, dict(case, t='aliases'),
+                        'document %r spelled %r' % (text[:200], t6[:200]))
     if len(ctx.samples) < 3 and kb == 'ok':
         ctx.sample({'doc_type': spec['doc_type'], 'text': text[:300],
                     'transformations': 'permute, 5 styles, +2 classes, '
@@ -485,6 +502,20 @@ def no_class_cases(ctx, rng, n):
         ctx.count('no_class_cases')
         run_case(ctx, spec, tree, rng.choice(['block', 'flow']),
                  rng.getrandbits(32), only='extra_classes')
+        if rng.random() < 0.3:
+            # one collection three or more times in a document
+            sub = D.spec_of(P.rand_plain(rng, depth=1, classes=('look',),
+                                         finite=True, dates=False))
+            if sub[0] == 's':
+                sub = ['seq', [sub, N_s('x')], S_SEQ]
+            rep = ['seq', [sub, sub, ['map', [[N_s('k'), sub],
+                                              [N_s('l'), sub]], S_MAP]],
+                   S_SEQ]
+            ctx.count('repeated_collection_cases')
+            run_case(ctx, {'classes': [], 'doc_type': rng.choice(
+                ['any', ['list', 'any']]), 'profile': 'no-class'}, rep,
+                rng.choice(['block', 'flow']), rng.getrandbits(32),
+                only='aliases')
 
 
 def N_s(v):
